@@ -7,13 +7,15 @@
    semantics, for every operator and every pair of operands.  The precedence ladder and the
    equivalence of the one-pass compiler with grammar ; code generator (T2) and of code execution with
    the big-step semantics over names (T1) are stated in Spec/Syntax.v, Model/Compile.v, Spec/AstSem.v and
-   are TESTED on every generated program by the suites t1check/t2check; their Coq proofs are in progress
-   (DESIGN.md section 0). *)
+   are PROVED: C01_language below says that for every accepted source text the run of the compiled program gives
+   the result, output, blocks, binding and warnings of the big-step semantics applied to the tree the grammar
+   assigns to the text (or stops at one of the two implementation limits). *)
 From Coq Require Import ZArith.
 From RecordUpdate Require Import RecordSet.
 Import RecordSetNotations.
 From BCL Require Import Model.Vm Spec.Sem Proofs.VmSpecProofs.
 Open Scope N_scope.
+From BCL Require Import Model.Api Model.Compile Spec.Syntax Spec.AstSem Proofs.ParserInvProofs Proofs.T2Expr Proofs.T2Proofs Proofs.T1Expr Proofs.T1Proofs Proofs.Language.
 
 (* every binary operator on every pair of operand values: the VM computes Sem.binop *)
 Theorem C01_binop_spec : forall p instr o a b stk m,
@@ -67,6 +69,28 @@ Theorem C01_int_div : forall x y, - 2^63 <= x < 2^63 ->
 Proof. first [exact VmSpecProofs.C01_int_div | apply VmSpecProofs.C01_int_div]. Qed.
 Local Close Scope Z_scope.
 Print Assumptions C01_int_div.
+
+(* parser ; VM = grammar ; big-step semantics, for every source text *)
+Theorem C01_language : forall name src,
+  let pr := parse_whole name src in
+  let ts := fst (lex [src]) in
+  pr_ok pr = true -> pr_oof pr = false -> pr_panic pr = false ->
+  ps_constants (pr_stats pr) < 2^64 ->
+  exists p, ast_program ts = Some p /\
+    let rr := execute (pr_prog pr) false false in
+    limit_res (rr_res rr) \/
+    (res_match (fst (run_program p)) (rr_res rr) /\ obs_match (snd (run_program p)) rr).
+Proof. first [exact Language.bcl_language | apply Language.bcl_language]. Qed.
+Print Assumptions C01_language.
+
+(* and the accepted texts are exactly the sentences the generator accepts *)
+Theorem C01_language_acceptance : forall name src,
+  let pr := parse_whole name src in
+  let ts := fst (lex [src]) in
+  (pr_ok pr = true /\ pr_oof pr = false /\ pr_panic pr = false) <->
+  (exists p, ast_program ts = Some p /\ hadError (compile_program p) = false).
+Proof. first [exact Language.bcl_accepts_iff | apply Language.bcl_accepts_iff]. Qed.
+Print Assumptions C01_language_acceptance.
 
 (* non-vacuity: a program mixing all operator levels and all value kinds *)
 From BCL Require Import Model.Api.
